@@ -67,7 +67,7 @@ class C15(scen.WorldProp):
         return lambda s: [scen.Follower(s, req["humans"], lambda r, p: lags[(r + p) % len(lags)])]
 
     def cases(self, rng, tier):
-        n = 60 if tier == "quick" else 500
+        n = 240 if tier == "quick" else 2000
         for i in range(n):
             if i % 4 == 3:
                 yield self.later_touch(rng)
